@@ -70,6 +70,13 @@ pub fn parse_record<const H: usize>(
         });
     }
 
+    // A payload shorter than the fixed header cannot have been written by us
+    if payload_len < H {
+        return Err(ReadError::Crc32cMismatch {
+            offset: offset as u64,
+        });
+    }
+
     let payload = &bytes[payload_offset..payload_offset + payload_len];
     let header: [u8; H] = payload[..H].try_into().unwrap();
     let compressed_data = &payload[H..];
